@@ -234,14 +234,17 @@ theorem blocksInst_comp (st : Comp.St) : blocksInst (.comp st) = [Block.comp st]
   structure `S-C-x` and the structure `x` of `S-C-` coincide (also: signal `S`'s auxiliary `S-_WC` and a
   sequence `_WC` of a component instance `S`);
 * the signals of the declaration are pairwise distinct — otherwise a signal of the enclosing system bound to
-  two ports of that name emits the connector structure `S-C-x` twice. -/
+  two ports of that name in different orientations emits the connector structure `S-C-x` twice (since repair F17
+  a repeated binding in the same orientation is written once; the hypothesis is stronger than needed there). -/
 def SysNamesOk (s : SSrc) : Bool :=
   (instNames s.stmts).all (fun n => decide (NoDash n)) &&
   (sigNames s.stmts).all (fun n => decide (NoDash n) && !(instNames s.stmts).contains n) &&
   decide (((s.inputs ++ s.outputs).map (·.name)).Nodup)
 
 /-- the sequences of a component's declaration are pairwise distinct (otherwise a signal bound to two ports of
-    the same sequence emits the connector structure `S-C-x` twice) -/
+    the same sequence, once plainly and once starred, emits the connector structure `S-C-x` twice; since repair F17
+    a repeated binding in the same orientation is written once — `examples/David_CRN/Oscillator.sys` — so the
+    hypothesis is stronger than needed for that case; `BlocksOk` itself holds there, see `tables_ok`) -/
 def PortsDistinct (c : Comp.Src) : Bool := decide (((c.inputs ++ c.outputs).map (·.seq)).Nodup)
 
 abbrev PD (c : Comp.Src) : Prop := StmtNamesOk c = true ∧ PortsDistinct c = true
